@@ -384,6 +384,13 @@ class LibMap:
         if name in ("at",):
             return "(*%sat(%s, %s))" % (f, p, em.E(args[0]))
         if name in ("push_back", "emplace_back", "push_front", "emplace_front"):
+            if len(args) == 2 and name.startswith("emplace") and tag.startswith("vf_pair_") and \
+                    tag[len("vf_pair_"):] in em.tm.pair_insts:
+                # emplace_back(a, b) on a sequence of std::pair: the pair is built in place from its two members
+                base = "push_back" if "back" in name else "push_front"
+                items = ["(%s)(%s)" % (fct, em.E(a)) if is_scalar(fct) and fct != "vf_str" else em.E(a)
+                         for a, fct in zip(args, em.tm.pair_insts[tag[len("vf_pair_"):]])]
+                return "%s%s(%s, ((struct %s){%s}))" % (f, base, p, tag, ", ".join(items))
             if len(args) != 1:
                 return None
             base = "push_back" if "back" in name else "push_front"
